@@ -2040,6 +2040,10 @@ class SSHConnection(SSHPacketHandler, asyncio.Protocol):
 
         self._kex_complete = True
 
+        if self._rekey_seconds:
+            # Measure the time to the next key exchange from the end of this one
+            self._rekey_time = time.monotonic() + self._rekey_seconds
+
         if first_kex:
             if self.is_client():
                 self.send_service_request(_USERAUTH_SERVICE)
